@@ -1,0 +1,161 @@
+// Verification contracts (comment-only, compiled only with the "verif" build tag; read by /verif/govc).
+
+//go:build verif
+// +build verif
+
+package vm
+
+// Contracts for evm.go (create / Create) — property C17: "an applied transaction … raises the nonce by one" and
+// "applied at most once" for CONTRACT CREATIONS. core.(*StateTransition).TransitionDb does not touch the nonce in its
+// creation branch: it relies on evm.Create. The clause below makes that reliance a verified callee postcondition:
+// once the depth and balance checks have passed, the creator's nonce is consumed — also when the address collides, when
+// the init code fails and the state is rolled back, when the code is too large or cannot be paid for.
+// (The EVM proper is property C16; these contracts use C17's own abstraction of the world state: the ghost maps
+// c17Bal / c17Nonce of /repo/core/verif_contracts_c17.go.)
+
+// Snapshots of the abstract state: Snapshot() issues a new id and records balances and nonces under it,
+// RevertToSnapshot(id) re-installs exactly what was recorded (= property C09's theorem for core/state.StateDB).
+//@ ghost var c17NSnap: map[int]map[common.Address]int
+//@ ghost var c17BSnap: map[int]map[common.Address]int
+//@ ghost var c17SnapNext: int
+
+// ---- vm.StateDB as used by create: trusted interface contracts (the implementation is core/state.StateDB, whose concrete
+// ---- methods carry the same contracts in /verif/specs/stdlib/c17_statedb.spec)
+//@ func (StateDB).GetBalance props C17
+//@ trusted
+//@ pure
+//@ ensures result != nil && big(result) == c17Bal[arg0]
+
+//@ func (StateDB).SubBalance props C17
+//@ trusted
+//@ requires arg1 != nil
+//@ modifies c17Bal
+//@ ensures c17Bal == store(old(c17Bal), arg0, old(c17Bal[arg0]) - big(arg1))
+//@ func (StateDB).AddBalance props C17
+//@ trusted
+//@ requires arg1 != nil
+//@ modifies c17Bal
+//@ ensures c17Bal == store(old(c17Bal), arg0, old(c17Bal[arg0]) + big(arg1))
+
+
+//@ func (StateDB).GetNonce props C17
+//@ trusted
+//@ pure
+//@ opt noalloc
+//@ ensures result == c17Nonce[arg0]
+
+//@ func (StateDB).SetNonce props C17
+//@ trusted
+//@ modifies c17Nonce
+//@ ensures c17Nonce == store(old(c17Nonce), arg0, arg1)
+
+//@ func (StateDB).GetCodeHash props C17
+//@ trusted
+//@ pure
+
+//@ func (StateDB).SetCode props C17       // code is not part of C17's abstraction
+//@ trusted
+//@ pure
+
+// CreateAccount replaces the account object: balance carried over (statedb.go createObject), nonce reset to 0.
+//@ func (StateDB).CreateAccount props C17
+//@ trusted
+//@ modifies c17Nonce
+//@ ensures c17Nonce == store(old(c17Nonce), arg0, 0)
+
+//@ func (StateDB).Snapshot props C17
+//@ trusted
+//@ modifies c17NSnap, c17BSnap, c17SnapNext
+//@ ensures result >= old(c17SnapNext) && c17SnapNext == result + 1
+//@ ensures c17NSnap == store(old(c17NSnap), result, c17Nonce) && c17BSnap == store(old(c17BSnap), result, c17Bal)
+
+//@ func (StateDB).RevertToSnapshot props C17
+//@ trusted
+//@ modifies c17Bal, c17Nonce, c17Refund
+//@ ensures c17Nonce == c17NSnap[arg0] && c17Bal == c17BSnap[arg0]
+
+// The two function values in vm.Context are core.CanTransfer / core.Transfer (core.NewEVMContext installs them; both are
+// verified against these same clauses in /repo/core/verif_contracts_c17.go).
+//@ func dynamic:CanTransferFunc props C17
+//@ trusted
+//@ pure
+//@ ensures result == (c17Bal[arg1] >= big(arg2))
+
+//@ func dynamic:TransferFunc props C17
+//@ trusted
+//@ modifies c17Bal
+
+// The account a ContractRef stands for; an AccountRef is its own address (contract.go:40, verified below).
+//@ spec func c17RefAddrOfContract(r: ContractRef) common.Address
+//@ spec func c17RefAddr(r: ContractRef) common.Address = if hastype(r, AccountRef) then unbox(r, AccountRef) else c17RefAddrOfContract(r)
+//@ func (ContractRef).Address props C17
+//@ trusted
+//@ pure
+//@ opt noalloc
+//@ ensures result == c17RefAddr(recv)
+
+//@ func (AccountRef).Address props C17
+//@ panics none
+//@ pure
+//@ opt noalloc
+//@ ensures result == ar
+
+//@ func (Tracer).CaptureStart props C17
+//@ trusted
+//@ pure
+
+// run = the interpreter. ASSUMED (`nobody`; the EVM is C16's subject): besides the abstract state it writes, of the Go objects that
+// exist before the call, only the frame's gas/input and the interpreter's scratch fields (the same heap frame C16 assumes for
+// (Interpreter).Run; evm.depth and evm.interpreter are restored by deferred calls), and
+//  [E1]  at depth 0 executed code does not change the nonce of the externally owned account that originated the transaction
+//        (nonces are bumped only for the executing account of a CREATE; an externally owned account has no code);
+//  [outer-snapshots]  snapshots taken by nested frames get new ids, recorded ones stay;
+//  [gas-monotone]     the frame's gas only decreases.
+//@ func run props C17
+//@ nobody
+//@ modifies contract.Gas, contract.Input, all(EVMInterpreter.returnData), all(EVMInterpreter.readOnly), evm.depth, evm.interpreter, c17Bal, c17Nonce, c17Refund, c17NSnap, c17BSnap, c17SnapNext
+//@ ensures [wiring-restored] evm.depth == old(evm.depth) && evm.interpreter == old(evm.interpreter)
+//@ ensures [E1] evm.depth == 0 ==> c17Nonce[evm.Context.Origin] == old(c17Nonce[evm.Context.Origin])
+//@ ensures [outer-snapshots] c17SnapNext >= old(c17SnapNext) &&
+//@     (forall i: int :: i < old(c17SnapNext) ==> c17NSnap[i] == old(c17NSnap[i]) && c17BSnap[i] == old(c17BSnap[i]))
+//@ ensures [gas-monotone] contract.Gas <= old(contract.Gas)
+
+//@ func NewContract props C17
+//@ nobody
+//@ modifies nothing
+//@ ensures fresh(result) && result.Gas == gas
+
+// The creation pre-checks of the statement's "sufficient funds" for the value, decided in the entry state.
+//@ spec func c17CreatePre(evm: *EVM, caller: ContractRef, value: *big.Int) bool =
+//@     evm.depth <= params.CallCreateDepth && c17Bal[c17RefAddr(caller)] >= big(value)
+// top-level creation by the transaction's sender
+//@ spec func c17TopLevel(evm: *EVM, caller: ContractRef) bool =
+//@     evm.depth == 0 && evm.Context.Origin == c17RefAddr(caller)
+
+//@ func (*EVM).create props C17
+//@ requires evm != nil && value != nil && caller != nil
+//@ requires 0 <= c17Nonce[c17RefAddr(caller)] && c17Nonce[c17RefAddr(caller)] < 2^64 - 1
+//@ let who = c17RefAddr(caller)
+//@ let pre = c17CreatePre(evm, caller, value)
+//@ let top = c17TopLevel(evm, caller)
+//@ modifies all(EVMInterpreter.returnData), all(EVMInterpreter.readOnly), evm.depth, evm.interpreter, c17Bal, c17Nonce, c17Refund, c17NSnap, c17BSnap, c17SnapNext
+// typestate: the nonce is consumed BEFORE the rollback point is taken, so no rollback can give it back
+//@ assert before call (StateDB).Snapshot: [nonce-bumped-before-snapshot] c17Nonce[c17RefAddr(caller)] == old(c17Nonce[c17RefAddr(caller)]) + 1
+//@ ensures [precheck-failed-untouched] !pre ==> result3 == (if old(evm.depth) > params.CallCreateDepth then ErrDepth else ErrInsufficientBalance) &&
+//@     c17Nonce == old(c17Nonce) && c17Bal == old(c17Bal) && c17Refund == old(c17Refund) && result2 == gas
+//@ ensures [nonce-consumed-unless-precheck-failed] pre && top ==> c17Nonce[who] == old(c17Nonce[who]) + 1
+//@ ensures [failed-create-keeps-balances] pre && result3 != nil ==> c17Bal == old(c17Bal)
+//@ ensures [gas-returned] result2 <= gas
+
+//@ func (*EVM).Create props C17
+//@ requires evm != nil && value != nil && caller != nil
+//@ requires 0 <= c17Nonce[c17RefAddr(caller)] && c17Nonce[c17RefAddr(caller)] < 2^64 - 1
+//@ let who = c17RefAddr(caller)
+//@ let pre = c17CreatePre(evm, caller, value)
+//@ let top = c17TopLevel(evm, caller)
+//@ modifies all(EVMInterpreter.returnData), all(EVMInterpreter.readOnly), evm.depth, evm.interpreter, c17Bal, c17Nonce, c17Refund, c17NSnap, c17BSnap, c17SnapNext
+//@ ensures [precheck-failed-untouched] !pre ==> err == (if old(evm.depth) > params.CallCreateDepth then ErrDepth else ErrInsufficientBalance) &&
+//@     c17Nonce == old(c17Nonce) && c17Bal == old(c17Bal) && c17Refund == old(c17Refund) && leftOverGas == gas
+//@ ensures [nonce-consumed-unless-precheck-failed] pre && top ==> c17Nonce[who] == old(c17Nonce[who]) + 1
+//@ ensures [failed-create-keeps-balances] pre && err != nil ==> c17Bal == old(c17Bal)
+//@ ensures [gas-returned] leftOverGas <= gas
